@@ -26,14 +26,19 @@
     row error, never with a schema error.  Condition (c) is not a convenience: both of its clauses are
     refuted when dropped ([C01_converges_refuted_index_moves], [_new_table_clash]), and both witnesses
     fail on real SQLite.
-    MISSING for the full statement: (1) condition (b) is assumed per table, not derived from a purely
-    syntactic description of the feature set; (2) inline UNIQUE constraints in the current database
+    [C01_converges_feature_set] states it over a syntactic feature list ([in_feature_set]; primary key,
+    foreign keys and checks by structural conditions proved sufficient in Sqlite/ConvergeSyntactic.v).
+    MISSING for the full statement: (1) the string-level part of condition (b) -- a default, a generated
+    expression, an index or a check expression is unchanged by print + inspect -- stays a closed
+    computation per object rather than a grammar of expressions; unnamed foreign keys (at most one per
+    table converges) are covered by [C01_converges_supported] only; (2) inline UNIQUE constraints in the current database
     (refuted in general: C01_converges_refuted_drop_unique); (3) SQL text and SQLite itself: the engine
     is a model, tied to real go-sqlite3 by the correspondence stages. *)
 From Coq Require Import List NArith ZArith Bool Arith.
 From Atlas Require Import Base.Bytes Diff.Schema Diff.DiffModel Diff.DiffSqlite
   Sqlite.PlanModel Sqlite.PlanProofs Sqlite.EngineModel Sqlite.InspectModel Sqlite.ConvergeDefs Sqlite.ConvergeStep
-  Sqlite.Converge Sqlite.ConvergeSupported Sqlite.EngineRowsProofs Sqlite.ConvergeRows.
+  Sqlite.Converge Sqlite.ConvergeSupported Sqlite.EngineRowsProofs Sqlite.ConvergeRows Sqlite.ConvergeParts Sqlite.ConvergeSyntactic
+  Sqlite.ConvergeFeature.
 Import ListNotations.
 
 (** ** the theorems *)
@@ -91,6 +96,42 @@ Theorem C01_create_converges :
     exists p d', diff_and_plan nm [] B = Some p /\ exec_all empty_db (plan_stmts p) = Ok d' /\ synced nm d' B.
 Proof. exact (fun nm B H => converges_supported nm empty_db B H). Qed.
 Print Assumptions C01_create_converges.
+
+(** THE FEATURE LIST, syntactically.  [in_feature_set d B]:
+    - catalogue of d: distinct table/index names, no inline UNIQUE constraint, typed columns, printable
+      tables, no open transaction ([db_ok_b] of the catalogue; rows are free);
+    - every desired table ([desired_syntactic_b]): accepted by CREATE TABLE (distinct column names, a
+      stored column, printable types/defaults, STRICT types, no DEFAULT on generated columns, key over
+      existing stored columns, WITHOUT ROWID only with a key, AUTOINCREMENT only as the INTEGER key);
+      primary key = the declared one, over columns, ascending, in the order of the columns; indexes with
+      distinct non-autoindex names accepted by CREATE INDEX; foreign keys named, distinct non-numeric
+      names, distinct shapes, any actions, any (self / cross / cyclic) target; checks pairwise
+      non-matching; and the string-level conditions, each a closed computation on one object: a
+      column's default / generated expression, an index (parts, DESC, expressions, predicate) and a
+      check expression are unchanged by print + inspect;
+    - names ([compatible_b]): new_<t> unused and unreferenced, desired index names not in use elsewhere,
+      AUTOINCREMENT columns of an existing table exist.
+    Then: a plan exists; executed on d (with its rows) it ends in sync, or stops with a row error. *)
+Theorem C01_converges_feature_set :
+  forall (nm : str) (d : db) (B : xschema),
+    in_feature_set d B = true ->
+    exists p, diff_and_plan nm (inspect d) B = Some p /\
+      ((exists d', exec_all d (plan_stmts p) = Ok d' /\ synced nm d' B) \/
+       (exists er, exec_all d (plan_stmts p) = Err er /\ row_err er = true)).
+Proof. exact converges_feature_set. Qed.
+Print Assumptions C01_converges_feature_set.
+
+(** the round-trip condition of a desired table follows from the syntactic one *)
+Theorem C01_desired_ok_syntactic : forall bx : xtable, desired_syntactic_b bx = true -> desired_ok bx.
+Proof. exact desired_ok_syntactic. Qed.
+Print Assumptions C01_desired_ok_syntactic.
+
+(** condition (b) of a desired table from its parts: the table is creatable and its check list, each
+    column, its primary key, each index and its foreign-key list round-trip on their own (a computable
+    check that does not run the differ on the whole table) *)
+Theorem C01_desired_ok_by_parts : forall bx : xtable, desired_parts_b bx = true -> desired_ok bx.
+Proof. exact desired_ok_by_parts. Qed.
+Print Assumptions C01_desired_ok_by_parts.
 
 (** for every input of the planner (no hypothesis on the schemas or on the change list): a plan that drops
     a table -- DROP TABLE or the rebuild -- is bracketed by PRAGMA foreign_keys = off / on, no other plan
@@ -153,6 +194,8 @@ Example C01_ex_plans :
    match diff_and_plan nm (inspect (run (run empty_db ex_A) ex_B)) ex_C with Some p => length (p_changes p) | None => 0 end)
   = (1, 2, 7).
 Proof. vm_compute. reflexivity. Qed.
+Example C01_ex_parts : forallb desired_parts_b (ex_A ++ ex_B ++ ex_C) = true.
+Proof. vm_compute. reflexivity. Qed.
 Example C01_ex_bracket :
   match diff_and_plan nm (inspect (run (run empty_db ex_A) ex_B)) ex_C with
   | Some p => map (fun c => is_pragma (pc_cmd c)) (p_changes p)
@@ -174,6 +217,10 @@ Example C01_ex_rows :
   && (match apply_plan nm (with_rows ex_AB [(1%Z, [(n_id, VInt 1); (n_a, VText [120]%N); (n_b, VNull)])]) ex_C with
       | Some (Ok d') => converged d' ex_C && match db_tables d' with [c] => Nat.eqb (length (ct_rows c)) 1 | _ => false end
       | _ => false end) = true.
+Proof. vm_compute. reflexivity. Qed.
+Example C01_ex_feature_set :
+  in_feature_set empty_db ex_A && in_feature_set (run empty_db ex_A) ex_B && in_feature_set (run (run empty_db ex_A) ex_B) ex_C
+  && in_feature_set (with_rows (run (run empty_db ex_A) ex_B) [(1%Z, [(n_id, VInt 1); (n_a, VNull); (n_b, VNull)])]) ex_C = true.
 Proof. vm_compute. reflexivity. Qed.
 Example C01_ex_second_plan : synced nm (run empty_db ex_A) ex_A.
 Proof. vm_compute. reflexivity. Qed.
